@@ -46,19 +46,19 @@ pub fn scalars() -> Vec<JsonShape> {
     ]
 }
 
-fn arr(t: JsonShape, optional: bool) -> JsonShape {
+pub fn arr(t: JsonShape, optional: bool) -> JsonShape {
     JsonShape::Array { r#type: Box::new(t), optional }
 }
-fn obj(c: Vec<(&str, JsonShape)>, optional: bool) -> JsonShape {
+pub fn obj(c: Vec<(&str, JsonShape)>, optional: bool) -> JsonShape {
     JsonShape::Object {
         content: c.into_iter().map(|(k, v)| (k.to_string(), v)).collect::<BTreeMap<_, _>>(),
         optional,
     }
 }
-fn one_of(v: Vec<JsonShape>, optional: bool) -> JsonShape {
+pub fn one_of(v: Vec<JsonShape>, optional: bool) -> JsonShape {
     JsonShape::OneOf { variants: v.into_iter().collect::<BTreeSet<_>>(), optional }
 }
-fn tup(v: Vec<JsonShape>, optional: bool) -> JsonShape {
+pub fn tup(v: Vec<JsonShape>, optional: bool) -> JsonShape {
     JsonShape::Tuple { elements: v, optional }
 }
 
